@@ -7,15 +7,6 @@ import PqModel.ConvertProofs
 namespace PqModel.Convert
 open PqModel.Dremel
 
-mutual
-/-- maximal definition levels of the leaf columns of a subtree entered at definition level `d` -/
-def maxDefsN : PNode → Nat → List Nat
-  | .leaf, d => [d]
-  | .group fs, d => maxDefsF fs d
-def maxDefsF : PFields → Nat → List Nat
-  | .nil, _ => []
-  | .cons _ rp n fs, d => maxDefsN n (d + defOf rp) ++ maxDefsF fs d
-end
 
 /-- erase the payload of entries below the column's maximal definition level -/
 def canonCol (td : Nat) (c : List Triple) : List Triple :=
